@@ -372,8 +372,9 @@ pub fn gen_comment(rng: &mut Rng) -> String {
     let mut s = String::new();
     for _ in 0..n {
         let c = strings::xml_char(rng);
-        // keep comments representable: no "--", no trailing '-'
-        if c == '-' {
+        // keep comments representable: no "--", no trailing '-', no CR (a CR is written as it
+        // is and read back as LF: line ends are normalised in comments)
+        if c == '-' || c == '\r' {
             continue;
         }
         s.push(c);
